@@ -276,7 +276,8 @@ def pair_conj(rng):
 
 def pair_shift(rng):
     A = base_instance(rng)
-    c = Fraction(rng.choice([1, -2, 4, 16, -8, 64]))
+    # small shifts and shifts that dwarf the level spacings (relative tolerances must not see them)
+    c = Fraction(rng.choice([1, -2, 4, 16, -8, 64, 2 ** 20, -(2 ** 20), 2 ** 24]))
     B = copy.deepcopy(A)
     B["E"] = [(epair(e)[0] + c, epair(e)[1]) for e in A["E"]]
     return A, B, None, lambda p: dict(kind="shift", c=res_c((c, Fraction(0)), p))
